@@ -582,6 +582,18 @@ fn run_case(case: &str) -> (String, String, String) {
 }
 
 fn run_guarded(case: &str) -> (String, String, String) {
+    if let Some(body) = case.strip_prefix("sh ") {
+        let mut out = (String::new(), String::new());
+        let o = guarded(|| {
+            out = script_case(body);
+            out.0.clone()
+        });
+        return if o.starts_with("PANIC") {
+            (o.clone(), format!("FAIL:{o}"), String::new())
+        } else {
+            (out.0, out.1, String::new())
+        };
+    }
     let mut out = (String::new(), String::new(), String::new());
     let o = guarded(|| {
         out = run_case(case);
@@ -592,6 +604,423 @@ fn run_guarded(case: &str) -> (String, String, String) {
     } else {
         out
     }
+}
+
+
+// ---------------------------------------------------------------------------------------------
+// script-level leg: a statement language rendered to shell text and run through the whole shell
+// (syntax and semantics: /verif/lean/YashModel/Variable/Script.lean)
+// ---------------------------------------------------------------------------------------------
+
+use yash_env::builtin::{Builtin, Type};
+use yash_env::io::Fd;
+use yash_env::semantics::{ExitStatus, Field};
+use yash_env::system::concurrency::WriteAll as _;
+use yash_env::system::r#virtual::{FileBody, Inode};
+use yverif::shell::{BuiltinFuture, Config, VEnv, run_with};
+
+const SCRIPT_NAMES: [&str; 3] = ["x", "y", "z"];
+const POST: &str = "vprobe \"${x-U}\" \"${y-U}\" \"${z-U}\" \"$#\" \"$*\"";
+
+#[derive(Clone, Debug)]
+struct Stmt {
+    kind: String,
+    pre: Vec<String>,
+    post: Vec<String>,
+}
+
+fn show_v(v: Option<&Variable>) -> String {
+    match v {
+        None => "-".into(),
+        Some(v) => {
+            let val = match &v.value {
+                None => "~".to_string(),
+                Some(Value::Scalar(x)) => x.clone(),
+                Some(Value::Array(xs)) => xs.join(":"),
+            };
+            format!("{}/{}/{}", val, v.is_exported as u8, v.is_read_only() as u8)
+        }
+    }
+}
+
+fn show_state<V: View + ?Sized>(s: &V) -> String {
+    let vs: Vec<String> = SCRIPT_NAMES
+        .iter()
+        .map(|n| format!("{}={}", n, show_v(s.get(n).as_ref())))
+        .collect();
+    format!("{} #={}", vs.join(","), s.params().join(","))
+}
+
+/// `vprobe args…`: the fields it received and what it sees in the variable set while it runs
+fn vprobe_main(env: &mut VEnv, args: Vec<Field>) -> BuiltinFuture<'_> {
+    let fields: Vec<&str> = args.iter().map(|f| f.value.as_str()).collect();
+    let text = format!("v {} {}\n", fields.join(","), show_state(&env.variables));
+    Box::pin(async move {
+        match env.system.write_all(Fd::STDOUT, text.as_bytes()).await {
+            Ok(_) => ExitStatus::SUCCESS.into(),
+            Err(_) => ExitStatus::FAILURE.into(),
+        }
+    })
+}
+
+fn parse_script(body: &str) -> Option<Vec<(String, Vec<Stmt>)>> {
+    let mut parts = vec![];
+    for part in body.split(';').map(|p| p.trim()).filter(|p| !p.is_empty()) {
+        let (name, stmts) = part.split_once(':')?;
+        if stmts.contains(':') {
+            return None;
+        }
+        let mut v = vec![];
+        for st in stmts.split(',').map(|t| t.trim()).filter(|t| !t.is_empty()) {
+            let mut ws = st.split_whitespace();
+            let kind = ws.next()?.to_string();
+            let rest: Vec<String> = ws.map(|w| w.to_string()).collect();
+            let cut = rest.iter().position(|w| w == "--");
+            let (pre, post) = match cut {
+                Some(i) => (rest[..i].to_vec(), rest[i + 1..].to_vec()),
+                None => (rest, vec![]),
+            };
+            v.push(Stmt { kind, pre, post });
+        }
+        parts.push((name.trim().to_string(), v));
+    }
+    Some(parts)
+}
+
+fn render_stmt(st: &Stmt) -> Option<String> {
+    let pre = st.pre.join(" ");
+    let post = st.post.join(" ");
+    let cmd = match st.kind.as_str() {
+        "A" => pre,
+        "S" => format!("{pre} :"),
+        "P" => format!("{pre} {POST}"),
+        "N" => format!("{pre} nosuchcmd"),
+        "X" => format!("{pre} /bin/ext"),
+        "C" => format!("{} {} {}", st.pre[1..].join(" "), st.pre.first()?, post),
+        "E" => format!("{pre} export {post}"),
+        "EX" => format!("export {pre}"),
+        "R" => format!("readonly {pre}"),
+        "L" => format!("typeset {pre}"),
+        "G" => format!("typeset -g {pre}"),
+        "U" => format!("unset {pre}"),
+        "SP" => format!("set -- {pre}"),
+        _ => return None,
+    };
+    Some(format!("echo @{}\n{}\n{}\n", st.kind, cmd.trim(), POST))
+}
+
+fn render_script(parts: &[(String, Vec<Stmt>)]) -> Option<String> {
+    let mut out = String::new();
+    for (name, stmts) in parts {
+        let mut body = String::new();
+        for st in stmts {
+            body.push_str(&render_stmt(st)?);
+        }
+        if name == "main" {
+            continue;
+        }
+        out.push_str(&format!("{name}() {{\n:\n{body}}}\n"));
+    }
+    let main = &parts.iter().find(|(n, _)| n == "main")?.1;
+    for st in main {
+        out.push_str(&render_stmt(st)?);
+    }
+    out.push_str("echo @END\n");
+    Some(out)
+}
+
+fn split_assign(t: &str) -> (String, Option<String>) {
+    match t.split_once('=') {
+        Some((n, v)) => (n.to_string(), Some(v.to_string())),
+        None => (t.to_string(), None),
+    }
+}
+
+fn temp_ops(ts: &[String]) -> Vec<Op> {
+    let mut v = vec![];
+    for t in ts {
+        let (n, val) = split_assign(t);
+        v.push(Op::As(n.clone(), Scope::Volatile, Value::Scalar(val.unwrap_or_default()), None));
+        v.push(Op::Ex(n, Scope::Volatile, true));
+    }
+    v
+}
+
+fn global_ops(ts: &[String]) -> Vec<Op> {
+    ts.iter()
+        .map(|t| {
+            let (n, val) = split_assign(t);
+            Op::As(n, Scope::Global, Value::Scalar(val.unwrap_or_default()), None)
+        })
+        .collect()
+}
+
+fn operand_ops(sc: Scope, t: &str) -> Vec<Op> {
+    match split_assign(t) {
+        (n, None) => vec![Op::Gn(n, sc)],
+        (n, Some(v)) => vec![Op::As(n, sc, Value::Scalar(v), None)],
+    }
+}
+
+/// The script interpreted on the naive stack of maps: the Rust-side prediction of every line.
+struct NaiveScript<'a> {
+    funs: &'a [(String, Vec<Stmt>)],
+    n: Naive,
+    out: Vec<String>,
+}
+
+impl NaiveScript<'_> {
+    /// returns true if an operation was refused (read-only)
+    fn run_ops(&mut self, ops: &[Op]) -> bool {
+        for op in ops {
+            if self.n.apply(op).starts_with("ro(") {
+                return true;
+            }
+        }
+        false
+    }
+    fn exp(&self) -> String {
+        let mut f: Vec<String> = SCRIPT_NAMES
+            .iter()
+            .map(|n| match self.n.get(n).and_then(|v| v.value) {
+                Some(Value::Scalar(x)) => x,
+                Some(Value::Array(xs)) => xs.join(" "),
+                None => "U".into(),
+            })
+            .collect();
+        f.push(self.n.params().len().to_string());
+        f.push(self.n.params().join(" "));
+        f.join(",")
+    }
+    fn vline(&self, exp: &str) -> String {
+        format!("v {} {}", exp, show_state(&self.n))
+    }
+    /// returns true when the script is aborted
+    fn exec(&mut self, stmts: &[Stmt], depth: usize) -> bool {
+        for st in stmts {
+            self.out.push(format!("@{}", st.kind));
+            let with_export = |ts: &[String], f: &dyn Fn(String) -> Op| -> Vec<Op> {
+                let mut v = vec![];
+                for t in ts {
+                    v.extend(operand_ops(Scope::Global, t));
+                    v.push(f(split_assign(t).0));
+                }
+                v
+            };
+            let aborted = match st.kind.as_str() {
+                "A" | "S" => self.run_ops(&global_ops(&st.pre)),
+                "E" => {
+                    let mut ops = global_ops(&st.pre);
+                    ops.extend(with_export(&st.post, &|n| Op::Ex(n, Scope::Global, true)));
+                    self.run_ops(&ops)
+                }
+                "EX" => self.run_ops(&with_export(&st.pre, &|n| Op::Ex(n, Scope::Global, true))),
+                "R" => self.run_ops(&with_export(&st.pre, &|n| Op::Ro(n, Scope::Global, 1))),
+                "U" => {
+                    let ops: Vec<Op> =
+                        st.pre.iter().map(|n| Op::Un(n.clone(), Scope::Global)).collect();
+                    self.run_ops(&ops)
+                }
+                "SP" => self.run_ops(&[Op::Sp(st.pre.clone())]),
+                "L" | "G" => {
+                    let sc = if st.kind == "L" { Scope::Local } else { Scope::Global };
+                    let mut ops = vec![Op::PushV];
+                    for t in &st.pre {
+                        ops.extend(operand_ops(sc, t));
+                    }
+                    self.run_ops(&ops);
+                    self.n.apply(&Op::Pop);
+                    false
+                }
+                "P" | "N" | "X" => {
+                    let exp = self.exp();
+                    let mut ops = vec![Op::PushV];
+                    ops.extend(temp_ops(&st.pre));
+                    if self.run_ops(&ops) {
+                        true
+                    } else {
+                        if st.kind == "P" {
+                            self.out.push(self.vline(&exp));
+                        } else if st.kind == "X" {
+                            self.out.push(format!("e {}", script_env(&View::env(&self.n))));
+                        }
+                        self.n.apply(&Op::Pop);
+                        false
+                    }
+                }
+                "C" => {
+                    let Some(body) = st
+                        .pre
+                        .first()
+                        .and_then(|f| self.funs.iter().find(|(n, _)| n == f))
+                        .map(|(_, b)| b.clone())
+                    else {
+                        self.out.push("bad".into());
+                        return true;
+                    };
+                    let mut ops = vec![Op::PushV];
+                    ops.extend(temp_ops(&st.pre[1..]));
+                    if self.run_ops(&ops) {
+                        true
+                    } else if depth > 40 {
+                        self.out.push("fuel".into());
+                        true
+                    } else {
+                        self.n.apply(&Op::PushR(st.post.clone()));
+                        if self.exec(&body, depth + 1) {
+                            true
+                        } else {
+                            self.n.apply(&Op::Pop);
+                            self.n.apply(&Op::Pop);
+                            false
+                        }
+                    }
+                }
+                _ => {
+                    self.out.push("bad".into());
+                    true
+                }
+            };
+            if aborted {
+                return true;
+            }
+            let exp = self.exp();
+            self.out.push(self.vline(&exp));
+        }
+        false
+    }
+}
+
+/// `x=..,y=..,z=..` of an environment, in the order of SCRIPT_NAMES
+fn script_env(env: &[Vec<u8>]) -> String {
+    let mut v = vec![];
+    for n in SCRIPT_NAMES {
+        let prefix = format!("{n}=");
+        if let Some(e) = env.iter().find(|e| e.starts_with(prefix.as_bytes())) {
+            v.push(String::from_utf8_lossy(e).into_owned());
+        }
+    }
+    v.join(",")
+}
+
+/// Runs a script case through the whole shell; returns (observation, oracle).
+fn script_case(body: &str) -> (String, String) {
+    let Some(parts) = parse_script(body) else {
+        return ("bad-case".into(), "-".into());
+    };
+    let Some(text) = render_script(&parts) else {
+        return ("bad-case".into(), "-".into());
+    };
+    let (outcome, execs) = run_with(
+        Config::new(&text),
+        |env, state| {
+            env.builtins
+                .insert("vprobe", Builtin::new(Type::Mandatory, vprobe_main));
+            let mut inode = Inode::default();
+            inode.body = FileBody::Regular { content: vec![], is_native_executable: true };
+            inode.permissions = yash_env::system::Mode::from_bits_retain(0o755);
+            state
+                .borrow_mut()
+                .file_system
+                .save("/bin/ext", std::rc::Rc::new(std::cell::RefCell::new(inode)))
+                .unwrap();
+        },
+        |_env, state| {
+            let st = state.borrow();
+            st.processes
+                .values()
+                .filter_map(|p| p.last_exec().as_ref())
+                .map(|(_, _, envs)| {
+                    let e: Vec<Vec<u8>> = envs.iter().map(|c| c.to_bytes().to_vec()).collect();
+                    script_env(&e)
+                })
+                .collect::<Vec<String>>()
+        },
+    );
+    if outcome.stuck {
+        return ("TIMEOUT".into(), "FAIL:stuck".into());
+    }
+    let mut execs = execs.unwrap_or_default().into_iter();
+    let mut lines: Vec<String> = vec![];
+    let mut ended = false;
+    for l in outcome.stdout_str().lines() {
+        lines.push(l.to_string());
+        if l == "@X" {
+            lines.push(format!("e {}", execs.next().unwrap_or_else(|| "?".into())));
+        }
+        if l == "@END" {
+            ended = true;
+        }
+    }
+    // a refused temporary assignment before /bin/ext means no exec: drop the placeholder
+    if !ended {
+        if lines.last().map(|l| l == "e ?").unwrap_or(false) {
+            lines.pop();
+        }
+        lines.push("abort".into());
+    }
+    let obs = lines.join(" | ");
+    // oracle: the naive stack of maps predicts every line
+    let mut ns = NaiveScript { funs: &parts, n: Naive::new(), out: vec![] };
+    let main = parts.iter().find(|(n, _)| n == "main").map(|(_, b)| b.clone()).unwrap_or_default();
+    let aborted = ns.exec(&main, 0);
+    ns.out.push(if aborted { "abort".into() } else { "@END".into() });
+    let oracle = if ns.out.join(" | ") == obs { "ok".into() } else { "FAIL:naive-script".to_string() };
+    (obs, oracle)
+}
+
+fn random_script(r: &mut Rng) -> String {
+    let vals = ["1", "2", "T", "Q", ""];
+    let assign = |r: &mut Rng| format!("{}={}", r.pick(&SCRIPT_NAMES), r.pick(&vals));
+    let temps = |r: &mut Rng| -> String {
+        let k = [1, 1, 1, 2, 0][r.below(5)];
+        (0..k).map(|_| assign(r)).collect::<Vec<_>>().join(" ")
+    };
+    let operand = |r: &mut Rng| {
+        if r.chance(1, 2) { assign(r) } else { r.pick(&SCRIPT_NAMES).to_string() }
+    };
+    let stmt = |r: &mut Rng, callee: Option<&str>, in_fn: bool| -> String {
+        loop {
+            let k = r.below(if in_fn { 24 } else { 20 });
+            let s = match k {
+                0 | 1 | 2 => format!("A {}", assign(r)),
+                3 | 4 => format!("P {}", temps(r)),
+                5 | 6 => format!("S {}", assign(r)),
+                7 => format!("E {} -- {}", temps(r), operand(r)),
+                8 | 9 | 10 => match callee {
+                    Some(f) => format!(
+                        "C {f} {} -- {}",
+                        temps(r),
+                        r.pick(&["", "a", "a b", "c"])
+                    ),
+                    None => continue,
+                },
+                11 => format!("N {}", temps(r)),
+                12 | 13 => format!("X {}", temps(r)),
+                14 => format!("EX {}", operand(r)),
+                15 => {
+                    if r.chance(1, 3) { format!("R {}", operand(r)) } else { continue }
+                }
+                16 | 17 => format!("U {}", r.pick(&SCRIPT_NAMES)),
+                18 => format!("G {}", operand(r)),
+                19 => format!("SP {}", r.pick(&["", "p", "p q"])),
+                _ => format!("L {}", operand(r)),
+            };
+            return s.split_whitespace().collect::<Vec<_>>().join(" ");
+        }
+    };
+    let body = |r: &mut Rng, callee: Option<&str>, in_fn: bool, n: usize| -> String {
+        (0..n).map(|_| stmt(r, callee, in_fn)).collect::<Vec<_>>().join(" , ")
+    };
+    let ng = 1 + r.below(4);
+    let nf = 1 + r.below(5);
+    let nm = 2 + r.below(7);
+    format!(
+        "sh g: {} ; f: {} ; main: {}",
+        body(r, None, true, ng),
+        body(r, Some("g"), true, nf),
+        body(r, Some("f"), false, nm)
+    )
 }
 
 // ---------------------------------------------------------------------------------------------
@@ -727,6 +1156,19 @@ fn main() {
         }
         let mut r = rng.fork();
         let case = random_case(&mut r, o.thorough());
+        let (obs, oracle, _) = run_guarded(&case);
+        emit(&case, &obs, &oracle);
+    }
+    // scripts through the whole shell
+    let mut rng = Rng::new(o.seed ^ 0x5C16);
+    let n = if o.thorough() { 20_000 } else { 1_000 };
+    for k in 0..n {
+        if k % o.shard.1 != o.shard.0 {
+            rng.next();
+            continue;
+        }
+        let mut r = rng.fork();
+        let case = random_script(&mut r);
         let (obs, oracle, _) = run_guarded(&case);
         emit(&case, &obs, &oracle);
     }
